@@ -359,7 +359,43 @@ def rule_encodepure_shared(ctx):
         yield o
 
 
+def rule_zerohold(ctx):
+    """resample_melody_series carries the last reported value over the samples that are exactly 0 (the unvoiced marker).
+    The test that selects them must be an equality with 0: a sign test (`> 0`) also treats negative values - cents below
+    the base frequency, i.e. a mere transposition - as unvoiced."""
+    R = "C09.ZEROHOLD"
+    f = ctx.program.func("melody.resample_melody_series", R)
+    s = ctx.S.get(f.qual)
+    tests = []
+    for m in s.by_kind("mutate"):
+        if m.how == "setitem" and m.root and "frequencies" in tm.params_of(m.d.get("old") or tm.none()):
+            for c, p in symeval.pc_conds(m.pc):
+                if any(z.op == "iter" and "frequencies" in tm.params_of(z) for z in tm.walk(c)):
+                    tests.append((c, m.node))
+    for c in s.calls():
+        if c.callee == "np.where" and len(c.args) == 3 and "frequencies" in tm.params_of(c.args[0]):
+            acc = [x for x in s.calls() if x.callee == "np.maximum.accumulate" and any(z is c.term for z in tm.walk(x.term))]
+            if acc:
+                tests.append((c.args[0], c.node))
+    if not tests:
+        # index form: positions[np.flatnonzero(<test on the frequencies>) ...] = 0 before the running maximum
+        for m in s.by_kind("mutate"):
+            if m.how == "setitem" and m.key is not None:
+                for z in tm.walk(m.key):
+                    if z.op == "call" and call_name(z) in ("np.flatnonzero", "np.nonzero", "np.where") and len(z.a[1]) == 1 and "frequencies" in tm.params_of(z.a[1][0]):
+                        tests.append((z.a[1][0], m.node))
+    need(tests, R, "resample_melody_series: the test selecting the samples to hold was not found")
+    n = 0
+    for c, node in tests:
+        n += 1
+        atoms = [x for x in tm.walk(c) if x.op == "cmp" and any(tm.is_const(z, 0) for z in x.a[1:]) and "frequencies" in tm.params_of(x)]
+        need(atoms, R, "resample_melody_series: hold test %s is not a comparison with 0" % tm.show(c, 3))
+        good = all(x.a[0] in ("==", "!=") for x in atoms)
+        yield ob(R, f, "melody.resample_melody_series:hold-test#%d" % n, good, "held samples are selected by equality with 0 (%s)" % tm.show(c, 3) if good else "held samples are selected by the ordering test %s: negative values (pitches below the base frequency) are treated as unvoiced, so transposing the melody changes which frames are held" % tm.show(c, 3), node=node)
+
+
 RULES = [
+    ("C09.ZEROHOLD", 1, rule_zerohold),
     ("C09.ROTATEROWS", 2, rule_rotaterows),
     ("C09.ENCODEPURE", 9, rule_encodepure_shared),
     ("C09.PITCHTABLES", 6, rule_pitchtables),
